@@ -41,19 +41,15 @@ func checkC02(c *fw.Ctx) {
 
 	canon := fw.NameIs("gmsl.CanonicalJSON")
 	// 2. messages
+	nsign := 0
 	for _, call := range fw.CallsTo(sign, false, fw.NameIs("golang.org/x/crypto/ed25519.Sign", "crypto/ed25519.Sign")) {
-		ok := fw.DerivesFrom(call.Common().Args[1], fw.FlowSpec{IsSource: fw.IsResultOf(canon, 0), All: true})
-		c.Check(ok, "2 message", "SignJSON signs CanonicalJSON of the projection", c.P.Pos(call.Pos()), "", "ed25519.Sign is applied to bytes that are not the result of CanonicalJSON")
-		// and that canonical input derives from the deletions applied to the input message
-		for _, cc := range fw.CallsTo(sign, false, canon) {
-			if cc.Value() != nil && fw.DerivesFrom(call.Common().Args[1], fw.FlowSpec{IsSource: func(v ssa.Value) bool { x, _ := fw.CallOf(v); return x == cc }, All: true}) {
-				src := cc.Common().Args[0]
-				okDel := fw.DerivesFrom(src, fw.FlowSpec{IsSource: fw.IsResultOf(fw.NameIs("github.com/tidwall/sjson.DeleteBytes"), 0), All: true})
-				okIn := fw.DerivesFrom(src, fw.FlowSpec{IsSource: func(v ssa.Value) bool { return isParam(v, sign, 3) }, Through: fw.ThroughNames(map[string][]int{"github.com/tidwall/sjson.DeleteBytes": {0}}), All: true})
-				c.Check(okDel && okIn, "2 message", "SignJSON canonicalises the input minus the excluded members", c.P.Pos(cc.Pos()), "", "the canonicalised bytes are not the input message with the excluded members deleted")
-			}
-		}
+		nsign++
+		// the signed bytes: CanonicalJSON( message minus the excluded members ), helpers transparent
+		keys, nonConst, passed, okOrigin := strippedChain(call.Common().Args[1], func(v ssa.Value) bool { return isParam(v, sign, 3) }, map[string][]int{"gmsl.CanonicalJSON": {0}})
+		c.Check(passed["gmsl.CanonicalJSON"], "2 message", "SignJSON signs CanonicalJSON of the projection", c.P.Pos(call.Pos()), "", "ed25519.Sign is applied to bytes that are not the result of CanonicalJSON")
+		c.Check(okOrigin && nonConst == 0 && sameSet(keys, want), "2 message", "SignJSON canonicalises the input minus the excluded members", c.P.Pos(call.Pos()), strings.Join(sortedSet(keys), ","), fmt.Sprintf("the signed bytes are not the input message with exactly {signatures, unsigned} deleted (derives from the message only: %v; deleted: %s)", okOrigin, strings.Join(sortedSet(keys), ",")))
 	}
+	c.Min("2 message ed25519.Sign sites", nsign, 1)
 	nver := 0
 	for _, call := range fw.CallsTo(verify, false, fw.NameIs("golang.org/x/crypto/ed25519.Verify", "crypto/ed25519.Verify")) {
 		nver++
@@ -133,6 +129,12 @@ func checkC02(c *fw.Ctx) {
 
 	// 4. SignJSON merge
 	checkSignMerge(c, sign)
+
+	// 6. the signature strings of the object are JSON strings: their value is obtained by
+	// JSON-decoding (escapes such as \/ are legal inside base64 text), never by slicing the raw token
+	if fn := mustFunc(c, "6 signature-decoding", "spec.(*Base64Bytes).UnmarshalJSON"); fn != nil {
+		c.CheckGate("6 signature-decoding", fn, "spec.(*Base64Bytes).UnmarshalJSON", fw.GuardCallErrNil("JSON string decoding (json.Unmarshal / strconv.Unquote)", fw.NameIs("encoding/json.Unmarshal", "strconv.Unquote")), fw.ErrNilSuccess(fn, fw.ErrIndex(fn), nil))
+	}
 
 	// 5. ListKeyIDs
 	if fn := mustFunc(c, "5 ListKeyIDs", "ListKeyIDs"); fn != nil {
